@@ -442,6 +442,15 @@ func runC06(c *fw.Ctx) {
 			ce := b.List[1].(*dst.ExprStmt).X.(*dst.CallExpr)
 			ce.Args = append(ce.Args, pickNode(ce.Args[0], cl).(dst.Expr))
 		}},
+		{"alias Ident shared by two import specs (one of them renamed at restore)", func(f *dst.File, cl bool) {
+			gd := f.Decls[0].(*dst.GenDecl)
+			id := dst.NewIdent("al")
+			gd.Specs[0].(*dst.ImportSpec).Name = id
+			gd.Lparen, gd.Rparen = true, true
+			gd.Specs = append(gd.Specs, &dst.ImportSpec{Name: pickNode(id, cl).(*dst.Ident), Path: &dst.BasicLit{Kind: token.STRING, Value: "\"x/dot\""}})
+			b := f.Decls[1].(*dst.FuncDecl).Body
+			b.List = append(b.List, &dst.ExprStmt{X: &dst.CallExpr{Fun: &dst.Ident{Name: "Dotted", Path: "x/dot"}}})
+		}},
 		{"dot-imported Ident twice", func(f *dst.File, cl bool) {
 			b := f.Decls[1].(*dst.FuncDecl).Body
 			id := &dst.Ident{Name: "Dotted", Path: "x/dot"}
